@@ -25,12 +25,7 @@ func replayFile(path string) int {
 		fmt.Println("bad replay file:", err)
 		return 2
 	}
-	b, ok := planBuilders[rp.Property]
-	if !ok {
-		fmt.Println("unknown property", rp.Property)
-		return 2
-	}
-	plan, err := b("thorough")
+	plan, err := buildPlan(rp.Property, "thorough")
 	if err != nil {
 		fmt.Println("plan:", err)
 		return 2
